@@ -239,3 +239,36 @@ pub fn short(e: &str) -> String {
     let s: String = e.chars().take(60).collect();
     s.replace(|c: char| c.is_ascii_digit(), "#")
 }
+
+/// Multiset equality of result rows with a relative tolerance on floats (sums are taken in
+/// another row order).
+pub fn same_rows_tol(a: &ResultSet, b: &ResultSet, rel: f64) -> bool {
+    if a.rows.len() != b.rows.len() {
+        return false;
+    }
+    let cell_eq = |x: &Cell, y: &Cell| -> bool {
+        match (x, y) {
+            (Cell::Float(_), _) | (_, Cell::Float(_)) => match (x.as_f64(), y.as_f64()) {
+                (Some(p), Some(q)) => (p - q).abs() <= rel * (1.0 + p.abs().max(q.abs())),
+                (None, None) => true,
+                _ => false,
+            },
+            _ => x.key() == y.key(),
+        }
+    };
+    let mut used = vec![false; b.rows.len()];
+    for x in &a.rows {
+        let mut found = false;
+        for (j, y) in b.rows.iter().enumerate() {
+            if !used[j] && x.len() == y.len() && x.iter().zip(y.iter()).all(|(p, q)| cell_eq(p, q)) {
+                used[j] = true;
+                found = true;
+                break;
+            }
+        }
+        if !found {
+            return false;
+        }
+    }
+    true
+}
